@@ -1,7 +1,7 @@
 (* Helpers for models over the canonical rationals Qc (exact arithmetic, Leibniz equality).
    - equalities: `ring` / `field` work directly on Qc.
    - order facts: `qc_order` transfers the goal (and hypotheses) to Q and calls lra. *)
-From Coq Require Import ZArith List QArith Qcanon Lia Lra Lqa.
+From Coq Require Import ZArith List QArith Qcanon Lia Lqa.
 Import ListNotations.
 Open Scope Qc_scope.
 
